@@ -25,6 +25,10 @@ class Check(PropertyCheck):
     QUICK_N = 300
 
     def generate(self, rng, n, tier):
+        if tier == "thorough":
+            # exhaustive small scope first (every instance <= 2 jobs x 2 operations, durations 0..2, every interleaving)
+            self.extra_coverage = {"exhaustive_small_scope": True}
+            yield from slices.exhaustive_small("snap")
         for _ in range(n):
             yield slices.dispatch_scenario(rng, with_invalid=True, replay=True, queries=True,
                                            max_jobs=4 if tier == "quick" else 5,
